@@ -67,7 +67,7 @@ type Script struct {
 type Job struct {
 	Mode    string   `json:"mode"`
 	Scripts []Script `json:"scripts"`
-	MaxBad  int      `json:"max_bad"` // stop after that many unsteered / hanging scripts (0 = 12)
+	MaxBad  int      `json:"max_bad"` // stop after that many unsteered / hanging scripts (0 = 12) if they are > 25 % of the scripts run
 }
 
 type Result struct {
@@ -86,7 +86,7 @@ type Result struct {
 }
 
 const (
-	stepWait  = 4 * time.Second  // a scripted boundary event must show up within this (else: unsteered)
+	stepWait  = 1500 * time.Millisecond // a scripted boundary event must show up within this (else: unsteered)
 	hangWait  = 12 * time.Second // a call that has everything it needs must return within this
 	leakWait  = 6 * time.Second
 	postCall  = 6 // id of the call started after transport Close ("later calls fail immediately")
@@ -206,13 +206,24 @@ func classify(cl *call, err error, closedErr error) string {
 }
 
 func waitDone(ch <-chan struct{}, d time.Duration) bool {
+	select {
+	case <-ch:
+		return true
+	default:
+	}
 	t := time.NewTimer(d)
 	defer t.Stop()
 	select {
 	case <-ch:
 		return true
 	case <-t.C:
-		return false
+		// (both may have become ready while this goroutine was not running: the channel decides)
+		select {
+		case <-ch:
+			return true
+		default:
+			return false
+		}
 	}
 }
 
@@ -234,17 +245,64 @@ func poll(d time.Duration, cond func() bool) bool {
 	}
 }
 
-// transportFrames returns the functions of pkg/upstream/transport that are on some goroutine's stack.
-func transportFrames() []string {
-	buf := make([]byte, 1<<20)
+// settle waits until the code under test has stopped producing boundary events for a moment (at most
+// 20 ms): scripts generated with Eager assume that the environment moves when the code cannot.
+func settle(rec *simnet.Recorder) {
+	last, since := -1, time.Now()
+	end := time.Now().Add(20 * time.Millisecond)
+	for time.Now().Before(end) {
+		n := len(rec.Events())
+		if n != last {
+			last, since = n, time.Now()
+		} else if time.Since(since) > 300*time.Microsecond {
+			return
+		}
+		time.Sleep(50 * time.Microsecond)
+	}
+}
+
+// transportGoroutines returns, per goroutine id, the functions of pkg/upstream/transport on its stack.
+func transportGoroutines() map[string][]string {
+	buf := make([]byte, 4<<20)
 	n := runtime.Stack(buf, true)
-	seen := map[string]bool{}
-	for _, line := range strings.Split(string(buf[:n]), "\n") {
-		if i := strings.Index(line, "mosdns/v5/pkg/upstream/transport."); i >= 0 && !strings.HasPrefix(line, "\t") {
-			f := line[i+len("mosdns/v5/pkg/upstream/"):]
-			if j := strings.LastIndex(f, "("); j > 0 {
-				f = f[:j]
+	out := map[string][]string{}
+	for _, g := range strings.Split(string(buf[:n]), "\n\n") {
+		lines := strings.Split(g, "\n")
+		if len(lines) == 0 || !strings.HasPrefix(lines[0], "goroutine ") {
+			continue
+		}
+		id := strings.Fields(lines[0])[1]
+		for _, line := range lines[1:] {
+			if i := strings.Index(line, "mosdns/v5/pkg/upstream/transport."); i >= 0 && !strings.HasPrefix(line, "\t") {
+				f := line[i+len("mosdns/v5/pkg/upstream/"):]
+				if j := strings.LastIndex(f, "("); j > 0 {
+					f = f[:j]
+				}
+				out[id] = append(out[id], f)
 			}
+		}
+	}
+	return out
+}
+
+// goroutines that were already stuck before this script started (left behind by an earlier script)
+var baseline = map[string]bool{}
+
+func setBaseline() {
+	baseline = map[string]bool{}
+	for id := range transportGoroutines() {
+		baseline[id] = true
+	}
+}
+
+// transportFrames returns the transport functions on the stacks of goroutines created since setBaseline.
+func transportFrames() []string {
+	seen := map[string]bool{}
+	for id, fs := range transportGoroutines() {
+		if baseline[id] {
+			continue
+		}
+		for _, f := range fs {
 			seen[f] = true
 		}
 	}
@@ -276,11 +334,12 @@ func main() {
 	}
 	bad := 0
 	for i, sc := range job.Scripts {
-		if bad >= job.MaxBad {
+		if bad >= job.MaxBad && bad*4 > i {
 			vh.Emit(Result{Idx: i, Name: sc.Name, Skipped: true})
 			continue
 		}
 		t0 := time.Now()
+		setBaseline()
 		var res Result
 		func() {
 			defer func() {
